@@ -732,8 +732,10 @@ type e1ctl struct {
 	mu        sync.Mutex
 	parked    []*ctlG
 	driver    int32 // 1 while the driver goroutine itself is running (it calls broker code too)
+	driverGid int64 // the driver is recognised by its goroutine id: it can be preempted while running
 	holder    int64 // goroutine released last: it may pass budget further statements without parking
 	budget    int64
+	focus     string // if set: only statements of this source file count as scheduling points for the holder
 	off       int32
 	seq       int64
 	seed      uint64
@@ -747,8 +749,59 @@ type e1ctl struct {
 var ctl *e1ctl
 var schedTrace = os.Getenv("VERIF_SCHED_TRACE") != ""
 
+// siteFiles: statement site -> source file, from the instrumenter's table.
+var siteFiles map[int]string
+var siteFileList []string
+
+func loadSiteFiles() {
+	if siteFiles != nil {
+		return
+	}
+	siteFiles = map[int]string{}
+	b, err := os.ReadFile(filepath.Join(os.Getenv("VERIF_SCRATCH_DIR"), "sites-lockstep.txt"))
+	if err != nil {
+		return
+	}
+	seen := map[string]bool{}
+	for _, l := range strings.Split(string(b), "\n") {
+		var id int
+		var loc string
+		if n, _ := fmt.Sscanf(l, "%d %s", &id, &loc); n == 2 {
+			f := loc
+			if i := strings.LastIndex(loc, ":"); i > 0 {
+				f = loc[:i]
+			}
+			siteFiles[id] = f
+			if !seen[f] {
+				seen[f] = true
+				siteFileList = append(siteFileList, f)
+			}
+		}
+	}
+	sort.Strings(siteFileList)
+}
+
+// focusKnob: the value of knob sched_focus that selects a given source file.
+func focusKnob(file string) int64 {
+	return int64(mix(0x5eed, file)%(1<<40)) + 1000
+}
+
 func ctlStart(w *world) {
-	ctl = &e1ctl{seed: mix(w.c.Seed, "sched"), w: w, driver: 1}
+	ctl = &e1ctl{seed: mix(w.c.Seed, "sched"), w: w, driver: 1, driverGid: goid()}
+	// focus (swarm style): in some runs only the statements of one source file are scheduling
+	// points for the goroutine that holds the turn - everywhere else it runs on. Fewer decisions,
+	// each of them where two handlers of that file can actually cross.
+	if fk := w.c.knob("sched_focus", 0); fk > 0 {
+		loadSiteFiles()
+		if len(siteFileList) > 0 {
+			ctl.focus = siteFileList[int(fk-1)%len(siteFileList)]
+			for _, f := range siteFileList { // a file named by focusKnob
+				if focusKnob(f) == fk {
+					ctl.focus = f
+				}
+			}
+		}
+	}
 	verifrt.YieldHook = ctlHook
 }
 
@@ -776,15 +829,27 @@ func ctlStop() {
 
 func ctlHook(site int, blocked bool) {
 	c := ctl
-	if c == nil || atomic.LoadInt32(&c.off) == 1 || atomic.LoadInt32(&c.driver) == 1 {
+	if c == nil || atomic.LoadInt32(&c.off) == 1 {
 		if blocked {
 			runtime.Gosched()
 		}
 		return
 	}
 	gid := goid()
-	if !blocked && gid == atomic.LoadInt64(&c.holder) && atomic.AddInt64(&c.budget, -1) >= 0 {
-		return // still its turn: only this goroutine has been running broker code since the decision
+	if gid == c.driverGid {
+		// the driver's own calls into the broker (gossip hand-over, listings, ...) are not scheduled
+		if blocked {
+			runtime.Gosched()
+		}
+		return
+	}
+	if !blocked && gid == atomic.LoadInt64(&c.holder) {
+		if c.focus != "" && siteFiles[site] != c.focus {
+			return // not a scheduling point in this run
+		}
+		if atomic.AddInt64(&c.budget, -1) >= 0 {
+			return // still its turn: only this goroutine has been running broker code since the decision
+		}
 	}
 	g := &ctlG{ch: make(chan struct{}), site: site, blocked: blocked, gid: gid}
 	c.mu.Lock()
@@ -1202,7 +1267,12 @@ func (w *world) apply(e *event) {
 			w.mu.Lock()
 			delete(obs.known, dead)
 			w.mu.Unlock()
-			w.leaveAt[[2]int{e.i, dead}] = w.nowMs()
+			if _, again := w.leaveAt[[2]int{e.i, dead}]; again {
+				obs.members.NotifyGossipJoin(nodeID(dead))
+				w.statAdd("fault.leave_repeated", 1)
+			} else {
+				w.leaveAt[[2]int{e.i, dead}] = w.nowMs()
+			}
 			obs.members.NotifyGossipLeave(nodeID(dead))
 			w.statAdd("fault.leave_notified", 1)
 			w.orderH = append(w.orderH, fmt.Sprintf("leave%d>%d", dead, e.i))
@@ -1881,6 +1951,10 @@ func (w *world) stopNode(i int, fixedDelay int64) {
 				d = base + int64(w.keyed("leave", i, p.idx).Intn(int(spread)+1))
 			}
 			w.push(&event{at: w.nowMs() + d, kind: "leave", i: p.idx, j: i})
+			if rep := w.c.knob("leave_repeat_ms", 0); rep > 0 {
+				// a flapping peer: declared dead, seen again (a refutation still in flight), dead again
+				w.push(&event{at: w.nowMs() + d + rep, kind: "leave", i: p.idx, j: i, step: -7})
+			}
 		}
 	}
 }
